@@ -7,5 +7,30 @@ func init() {
 	reg(&propInfo{ID: "C01", Harness: "hengine", Level: "exploration", QuickS: 45, ThoroughS: 900,
 		Rule:   "seeded scenarios (stratified model over <=4 types, <=34 tuples incl. leftovers/wildcards/usersets/conditions, 12 Check requests of all three subject kinds with contexts and contextual tuples) executed in a synctest bubble against command-level (forced strategies) or Server-level Check, twin and storage-fault configurations; every answer judged by the Kleene least-fixpoint reference model. A run is non-trivial if tuples exist and at least one answer was judged; distinct = distinct event-log digest.",
 		Real:   realEngine, Stub: stubEngine,
-		Assume: []string{"reference model (sim/refmodel) is the specification", "memory backend only", "workers GOMAXPROCS=1"}})
+		Assume:    []string{"reference model (sim/refmodel) is the specification", "memory backend only", "workers GOMAXPROCS=1"},
+		LevelText: "seeded exploration: thousands of generated (model, tuples, request) scenarios per minute, each executed against the real engine inside a virtual-time bubble with forced strategies, storage latency orderings and storage faults, judged by an independent least-fixpoint reference model with supervaluation for unevaluable conditions; evidence, not proof",
+		LevelNote: "trusts the reference model, the generator's bounded vocabulary (<=4 types, <=3 objects per type, 4 condition families) and the memory backend; SQL backends are outside this check",
+		Technique: "deterministic simulation (synctest bubble + seeded scheduler/faults) with reference-model oracle", DesignRef: "§3 C01"})
+	eng := func(id string, quick, thorough float64, rule, text, ref string) {
+		reg(&propInfo{ID: id, Harness: "hengine", Level: "exploration", QuickS: quick, ThoroughS: thorough, Rule: rule, Real: realEngine, Stub: stubEngine,
+			Assume:    []string{"reference model (sim/refmodel) is the specification", "memory backend only", "workers GOMAXPROCS=1"},
+			LevelText: text, LevelNote: "trusts the reference model, the generator's bounded vocabulary and the memory backend; evidence from sampling, not proof",
+			Technique: "deterministic simulation (synctest bubble + seeded scheduler/faults) with reference-model oracle", DesignRef: ref})
+	}
+	eng("C02", 45, 900, "C01 scenarios evaluated under a vector of 5 configurations per run (forced strategy policy default/fast/per-call/hash, breadth 1/2/25, read concurrency, check optimisations, dispatch throttling with tiny thresholds, ListObjects engine classic/weighted/pipeline with chunk/buffer/procs knobs), sequentially with repetition or as 3 concurrent copies of every request; all definite answers must agree with each other and with the reference. Non-trivial: tuples exist and answers judged; distinct = event-log digest.",
+		"seeded exploration of the configuration x schedule space: every request answered under five strategy/tuning configurations (two of them seed-chosen), repeated and concurrent; cross-configuration equality plus the C01 oracle", "§3 C02")
+	eng("C03", 45, 900, "C01 scenarios with object, wildcard and userset subjects sent to a Server with weighted_graph_check on (fallback path included) and, for userset/wildcard subjects, to a default-engine Server; object subjects judged by the reference oracle, other subjects by 'difference implies a reported breaking-change warning or a documented request-shape rejection' using a capturing logger.",
+		"seeded exploration of the v2 (weighted graph) Check path against the reference (object subjects) and against the default engine plus the breaking-change detector (userset/wildcard subjects)", "§3 C03")
+	eng("C04", 45, 900, "tuple set split by the seed into stored A and contextual B; each Check/ListObjects/ListUsers/Expand request is issued with a subset of B as contextual tuples and, against a clone store holding A∪subset, without; responses must be equal, equal the reference on its own tuples, and the store must be unchanged afterwards; optionally all caches on (SimCache with evictions) and concurrent clients.",
+		"seeded exploration of contextual-vs-stored equivalence and non-leakage across interleaved requests with caches", "§3 C04")
+	eng("C05", 45, 900, "C01 scenarios with 8 ListObjects/StreamedListObjects requests per run on the classic, weighted and pipeline engines (chunk 1-2, buffer 2-4, 1-3 procs), limits 0-3, short virtual deadlines against injected latency, storage faults; oracle: returned ⊆ permitted, no duplicates, complete when untruncated, exactly limit when the limit applies.",
+		"seeded exploration of ListObjects on all three engines under limits, deadlines, worker interleavings and storage faults, judged by the reference set", "§3 C05")
+	eng("C06", 45, 900, "C01 scenarios with 8 ListUsers requests per run over every object, relation and filter (types and type#relation); oracle: every entry checks true individually in the reference, no duplicates, filter respected, complete for concrete users (explicitly or via wildcard) when untruncated.",
+		"seeded exploration of ListUsers against per-entry reference checks and completeness", "§3 C06")
+	eng("C07", 45, 900, "3 batches of 2-11 items per run drawn from the C01 request space with near-duplicates (same key, different context / contextual tuples / reordered contextual tuples), batch concurrency 1/2/25, query cache on/off, storage faults; every correlation id must get exactly one outcome equal to the standalone reference answer.",
+		"seeded exploration of BatchCheck against per-item reference answers, including de-duplication collisions", "§3 C07")
+	eng("C30", 30, 600, "C01 scenarios; Expand for 10 (object, relation) pairs per run with stored+contextual tuples and leftovers, storage faults; the rendered tree must equal the reference tree (node kinds/names from the rewrite, sorted de-duplicated valid users, tupleset and computed usersets).",
+		"seeded exploration of Expand against a reference tree builder", "§3 C30")
+	eng("C32", 45, 900, "C01 scenarios; each Check/ListObjects/ListUsers request is issued through AuthZEN Evaluation/ResourceSearch/SubjectSearch and natively on the same server and state; plus a batched Evaluations call with execute_all / deny_on_first_deny / permit_on_first_permit; decisions and sets must equal each other and the reference.",
+		"seeded exploration of AuthZEN vs native API vs reference", "§3 C32")
 }
